@@ -106,6 +106,58 @@ func RunAll(run *hlib.Run, prop string, sigPrefixes []string, n int) {
 	}
 }
 
+// RunGrowth: the end-to-end stream of the C08 check.  One real member leads the group; between its first and its second
+// Consume call the subscribed topic gains partitions.  Only the "C08:" oracle is reported: every plan the leader syncs
+// after the growth holds every partition of the topic.
+func RunGrowth(run *hlib.Run, n int) {
+	var seeds []uint64
+	if lines := run.ReplayLines(); lines != nil {
+		for _, l := range lines {
+			t := strings.Fields(l)
+			if len(t) >= 3 && t[0] == "e2e" && t[1] == "gs" {
+				if s, err := strconv.ParseUint(t[2], 10, 64); err == nil {
+					seeds = append(seeds, s, s, s)
+				}
+			}
+		}
+	} else {
+		for i := 0; i < n; i++ {
+			seeds = append(seeds, run.Seed*1000003+900000+uint64(i))
+		}
+	}
+	for idx, s := range seeds {
+		if !run.Mine(idx) {
+			continue
+		}
+		sc := Gen(s, "C08")
+		res := Run(sc)
+		desc := "e2e gs " + strconv.FormatUint(s, 10) + " # " + sc.String()
+		if res.NewErr != "" {
+			run.Count("group-not-created")
+			run.Case(desc + " => " + res.NewErr)
+			continue
+		}
+		run.Case(desc)
+		syncsAfter := 0
+		for _, r := range res.Reqs {
+			if r.Kind == "sync" && r.Verdict == 0 && !r.Dropped && res.GrownAtSeq > 0 && r.Seq > res.GrownAtSeq {
+				syncsAfter++
+			}
+		}
+		run.Count(fmt.Sprintf("plans-synced-after-growth=%d", syncsAfter))
+		if syncsAfter > 0 {
+			run.Nontrivial(fmt.Sprintf("%s|%d|%d|%v", sc.Strategy, sc.Partitions, sc.GrowBy, len(sc.Script) > 0))
+		}
+		for _, f := range Check(res) {
+			if strings.HasPrefix(f.Sig, "C08:") {
+				run.IOFail(strings.TrimPrefix(f.Sig, "C08:"), "e2e gs "+strconv.FormatUint(s, 10), f.Detail+" | "+sc.String())
+			} else {
+				run.Count("other-property-oracle:" + f.Sig)
+			}
+		}
+	}
+}
+
 // TraceLines renders handler events and coordinator requests, merged by their global sequence numbers, as
 // operation lines for the Lean session model.
 func TraceLines(res *Result) []string {
